@@ -289,6 +289,8 @@ def solve_forked(args):
         # a fresh z3 context per obligation: the verdict does not depend on which queries this worker solved before
         zc = z3.Context()
         asserts = [a.translate(zc) for a in _assertions(o)]
+        if not asserts:
+            return str(idx), 'sat' if o.expect_sat else 'unknown', 'z3-5.1.0(api)', 0.0, None, 'no hypotheses'
         try:
             last = z3.simplify(asserts[-1], som=True, arith_lhs=True)
             if z3.is_false(last):
